@@ -470,6 +470,13 @@ def main_for(prop):
         ctx = Ctx(run)
     except Unsupported as e:
         run.harness_error(f"cannot encode the line classifier: {e}")
+        # the listing-level probes do not depend on the encoding: they still run (and can report a replayable violation)
+        try:
+            if prop == "C16":
+                presentation_edit_battery(run)
+            long_listing_parser_probe(run)
+        except Exception as e2:
+            run.harness_error(f"listing-level probes: {type(e2).__name__}: {e2}")
         return run.finish({"evaluations": max(1, run.counts.get("traces_validated_against_impl", 0)), "distinct_nontrivial": max(2, run.counts.get("traces_validated_against_impl", 0)), "samples": run.samples or ["(encoding failed)"]}, ASSUME)
     run.coverage_extra["cascade"] = [repr(s) for s in ctx.steps]
     run.coverage_extra["cascade_call_order"] = ctx.order
@@ -693,7 +700,7 @@ def presentation_edit_battery(run):
            ("1009", "48 8b 05 f0 2f 00 00", "mov", "0x2ff0(%rip),%rax", "        # 4000 <data>"), ("1010", "c3", "ret", "", ""),
            ("1040", "55", "push", "%rbp", ""), ("1041", "48 89 e5", "mov", "%rsp,%rbp", ""), ("1044", "c3", "ret", "", "")]
 
-    def render(indent="    ", header=True, sections=(0, 5), labels=(0, 5), blanks=True, annotations=True, width=21, extra_header_mid=False, comment_all=False):
+    def render(indent="    ", header=True, sections=(0, 5), labels=(0, 5), blanks=True, annotations=True, width=21, extra_header_mid=False, comment_all=False, upper_bytes=False):
         out = []
         if header:
             out += ["", "prog:     file format elf64-x86-64", ""]
@@ -708,7 +715,7 @@ def presentation_edit_battery(run):
             if comment_all and not tail:
                 tail = "   # note"
             text = f"{m:<6} {o}".rstrip() if o else m
-            out.append(f"{indent}{a}:\t{(b + ' ').ljust(width)}\t{text}{tail}")
+            out.append(f"{indent}{a}:\t{((b.upper() if upper_bytes else b) + ' ').ljust(width)}\t{text}{tail}")
         return "\n".join(out) + "\n"
 
     base = jasmapi.parse_listing(render())
@@ -727,6 +734,7 @@ def presentation_edit_battery(run):
         "narrow byte column": dict(width=1),
         "wide byte column": dict(width=40),
         "headerless snippet": dict(header=False, sections=(), labels=(), blanks=False),
+        "upper-case raw-byte column": dict(upper_bytes=True),
     }
     for name, kw in variants.items():
         got = jasmapi.parse_listing(render(**kw))
@@ -743,6 +751,14 @@ def presentation_edit_battery(run):
         "file route, section renamed": render().replace(".s0", ".text").encode(),
         "file route, no labels no blanks": render(labels=(), blanks=False).encode(),
     }
+    # two objects in one dump (objdump -d a.o b.o, archives): addresses restart, byte-identical lines repeat - every
+    # instruction line is an instruction of the sequence, however it is presented
+    twice = jasmapi.file_route_stream((render() + render()).encode())
+    twice_edit = jasmapi.file_route_stream((render() + render(indent="  ", width=30, comment_all=True)).encode())
+    for nm, got in (("two objects in one dump", twice), ("two objects, second re-indented and commented", twice_edit)):
+        run.count("traces_validated_against_impl")
+        if got != base + base:
+            run.failure(f"presentation/{nm.replace(' ', '_').replace(',', '')}", f"'{nm}': stream has {got.count('|')} instructions, expected {2 * base.count('|')} (the base listing twice)", {"kind": "lx_edit", "edit": nm})
     for opt_name, cfgdoc in (("", None), (" with config.sections", {"config": {"sections": [".s5"]}, "pattern": ["zzzz"]})):
         for name, data in file_variants.items():
             got = jasmapi.file_route_stream(data, cfgdoc)
